@@ -80,15 +80,18 @@ RefMerge(ls0) == LET ls == NonEmpty(ls0) IN
              r == RefMerge(Strip(ls, x))
          IN IF r = Bad THEN Bad ELSE <<x>> \o r
 \* L[C] = C + merge(L[B1], ..., L[Bn], B1..Bn)      (only evaluated on acyclic hierarchies)
-RECURSIVE C3(_)
-C3(c) == LET ps == [i \in 1..Len(bases[c]) |-> C3(bases[c][i])] IN
+\* (the linearisations of the bases are built as an explicit tuple: TLC evaluates a function constructor again at every
+\*  application, which made the recursion exponential)
+RECURSIVE C3(_), C3List(_, _)
+C3List(bs, i) == IF i > Len(bs) THEN <<>> ELSE <<C3(bs[i])>> \o C3List(bs, i + 1)
+C3(c) == LET ps == C3List(bases[c], 1) IN
     IF \E i \in 1..Len(ps) : ps[i] = Bad THEN Bad
     ELSE LET m == RefMerge(ps \o <<bases[c]>>) IN IF m = Bad THEN Bad ELSE <<c>> \o m
 
 RECURSIVE ReachIn(_, _)
 ReachIn(S, i) == IF i = 0 THEN S ELSE ReachIn(S \cup UNION {Range(bases[x]) : x \in S}, i - 1)
 Anc(c) == ReachIn(Range(bases[c]), n)                   \* proper ancestors
-CycleFrom(c) == \E x \in Anc(c) \cup {c} : x \in Anc(x)
+CycleFrom(c) == Source \in {"graph", "file"} /\ \E x \in Anc(c) \cup {c} : x \in Anc(x)   \* the builder sources are acyclic by construction
 RefMro(c) == IF CycleFrom(c) THEN Cyclic ELSE C3(c)
 Consistent(c) == RefMro(c) \notin {Bad, Cyclic}
 \* Python rejects exactly this class statement (all its bases exist)
@@ -129,10 +132,11 @@ PdMergeLoop(ls, result) ==                                                    \*
          IF cand = {} THEN Bad                                                \* for ... else: raise ValueError
          ELSE LET h == PdHead(ls[Min(cand)]) IN PdMergeLoop(PdRemove(ls, h), Append(result, h))
 GetBases(c) == bases[c]         \* compute_mro.getbases: the final base objects (every base resolves in pass 2)
-RECURSIVE PdMro(_)
+RECURSIVE PdMro(_), PdMroList(_, _)
+PdMroList(bs, i) == IF i > Len(bs) THEN <<>> ELSE <<PdMro(bs[i])>> \o PdMroList(bs, i + 1)
 PdMro(c) ==                                                                   \* mro.mro                :130-139
     IF Len(GetBases(c)) = 0 THEN <<c>>
-    ELSE LET ps == [i \in 1..Len(GetBases(c)) |-> PdMro(GetBases(c)[i])] IN
+    ELSE LET ps == PdMroList(GetBases(c), 1) IN
          IF \E i \in 1..Len(ps) : ps[i] = Bad THEN Bad                        \* ValueError propagates
          ELSE LET m == PdMergeLoop(ps \o <<GetBases(c)>>, <<>>) IN IF m = Bad THEN Bad ELSE <<c>> \o m
 
@@ -175,10 +179,11 @@ PdDocOwner(c) == LET s == SelectSeq(PdSources(c), HasDoc) IN
 \*      EarlyOrder "allbases" = depth-first over them, duplicates and all (the code before commit d15584e);
 \*                 "c3"       = linearise what is known so far, depth-first only when that fails (since d15584e).
 EB(c) == BaseObjs(c, {})
-RECURSIVE PdMroE(_)
+RECURSIVE PdMroE(_), PdMroEList(_, _)
+PdMroEList(bs, i) == IF i > Len(bs) THEN <<>> ELSE <<PdMroE(bs[i])>> \o PdMroEList(bs, i + 1)
 PdMroE(c) ==
     IF Len(EB(c)) = 0 THEN <<c>>
-    ELSE LET ps == [i \in 1..Len(EB(c)) |-> PdMroE(EB(c)[i])] IN
+    ELSE LET ps == PdMroEList(EB(c), 1) IN
          IF \E i \in 1..Len(ps) : ps[i] = Bad THEN Bad
          ELSE LET m == PdMergeLoop(ps \o <<EB(c)>>, <<>>) IN IF m = Bad THEN Bad ELSE <<c>> \o m
 EarlyMro(c) == IF EarlyOrder = "c3" THEN (LET m == PdMroE(c) IN IF m = Bad THEN AllBases(c, {}) ELSE m)
